@@ -80,8 +80,9 @@ func (p *Parser) Parse(source string) (Node, error) {
 		tokenizer.ApplyWhitespaceControl()
 	}
 
-	// Return the tokenizer to the pool
-	ReleaseTokenizer(tokenizer)
+	// The token slice aliases the tokenizer's buffer, so the tokenizer may only
+	// go back to the pool once parsing is done
+	defer ReleaseTokenizer(tokenizer)
 
 	if err != nil {
 		return nil, fmt.Errorf("tokenization error: %w", err)
